@@ -1,0 +1,40 @@
+//go:build verif
+
+package clone
+
+// Contracts for the clone combinators over slices and Go maps (heap mode),
+// checked by /verif/govc.  Comment-only file.
+
+//@ import "github.com/csgura/fp/internal/veriflaws"
+//
+//@ ghost
+//@ func sliceCloneOK[T any](c fp.Clone[T], s []T) bool {
+//@ 	r := Slice(c).Clone(s)
+//@ 	return len(r) == len(s) && Fresh(r) && (forall i int :: 0 <= i && i < len(s) ==> Eq(r[i], c.Clone(s[i])))
+//@ }
+//@ func seqCloneOK[T any](c fp.Clone[T], s fp.Seq[T]) bool {
+//@ 	r := Seq(c).Clone(s)
+//@ 	return len(r) == len(s) && Fresh(r) && (forall i int :: 0 <= i && i < len(s) ==> Eq(r[i], c.Clone(s[i])))
+//@ }
+//@ end
+//
+//@ lemma sliceDef[T any](c fp.Clone[T], s []T)
+//@   prop C18 C04
+//@   ensures sliceCloneOK(c, s)
+//@   ensures seqCloneOK(c, fp.Seq[T](s))
+//
+//@ func GoMap(clonek, clonev) result
+//@   prop C18 C04
+//@   loop 0 invariant Fresh(ret) && len(ret) == verifspec.VisitedCount(s) - 1 && verifspec.VisitedCount(s) <= len(s) && verifspec.Visited(s, k) && verifspec.Has(s, k) && Eq(v, s[k])
+//@   loop 0 invariant forall q K :: verifspec.Visited(s, q) && !Eq(q, k) ==> verifspec.Has(ret, q) && Eq(ret[q], clonev.Clone(s[q]))
+//@   loop 0 invariant forall q K :: verifspec.Has(ret, q) ==> verifspec.Visited(s, q) && !Eq(q, k)
+//@   loop 0 invariant forall q K :: verifspec.Visited(s, q) ==> verifspec.Has(s, q)
+//@   loop 0 decreases len(s) - verifspec.VisitedCount(s)
+//
+//@ lemma goMapDef[K comparable, V any](ck fp.Clone[K], cv fp.Clone[V], s map[K]V, q K)
+//@   prop C18 C04
+//@   requires veriflaws.CloneIsCopy(ck)
+//@   ensures len(GoMap(ck, cv).Clone(s)) == len(s)
+//@   ensures verifspec.Has(GoMap(ck, cv).Clone(s), q) == verifspec.Has(s, q)
+//@   ensures verifspec.Has(s, q) ==> Eq(GoMap(ck, cv).Clone(s)[q], cv.Clone(s[q]))
+//@   ensures Fresh(GoMap(ck, cv).Clone(s))
